@@ -145,7 +145,36 @@ func c13ParameterBlock(r *Report, p *Prog) {
 	f := NewFolder(p)
 	zb, err := f.GlobalByName("sm2", "zBytes")
 	if err != nil || zb.k != fBytes {
-		r.Undecided("PARAMETER-BLOCK", "sm2.zBytes", "sm2/sm2.go", fmt.Sprintf("initialiser does not fold to a byte string: %v", err))
+		// not a literal: interpret internal.GetZBytes with the curve literal's parameters as symbols; the block must be
+		// be32(P-3) || be32(B) || be32(Gx) || be32(Gy)
+		fn := p.Func("sm2/internal.GetZBytes")
+		if fn == nil {
+			r.Undecided("PARAMETER-BLOCK", "sm2.zBytes", "sm2/sm2.go", fmt.Sprintf("initialiser does not fold to a byte string: %v", err))
+			return
+		}
+		if P, e1 := f.CurveInt("P"); e1 == nil {
+			for _, nm := range []string{"B", "Gx", "Gy"} {
+				if v, e2 := f.CurveInt(nm); e2 != nil || v.Sign() < 0 || v.Cmp(P) >= 0 {
+					r.Viol("PARAMETER-BLOCK", "curve literal "+nm, "sm2/internal/sm2_curve.go", "the parameter is not a field element of the literal's p")
+				}
+			}
+		} else {
+			r.Fatalf("unresolved anchor: curve parameters")
+			return
+		}
+		e, outs := protoRunMode(p, fn, false)
+		want := pOp("cat", pBe(pAdd(pSym("P"), pC(-3)), 32), pBe(pSym("B"), 32), pBe(pSym("Gx"), 32), pBe(pSym("Gy"), 32))
+		ok := len(e.errs) == 0 && len(e.precond) == 0 && len(outs) == 1 && len(outs[0].vals) == 1
+		got := "?"
+		if ok {
+			if t, isB := e.proto.bytesOf(outs[0].st, outs[0].vals[0]); isB {
+				got = e.proto.normInt(outs[0].st, t).String()
+				ok = got == want.String()
+			} else {
+				ok = false
+			}
+		}
+		r.Check(ok, "PARAMETER-BLOCK", "sm2.zBytes", p.Pos(fn.Pos()), "internal.GetZBytes returns be32(p-3) || be32(b) || be32(Gx) || be32(Gy) of the curve literal (interpreted with the literal's parameters as symbols; p-3 fits 32 bytes)"+ifs(!ok, ": got "+trunc(got, 200)+"; "+strings.Join(append(e.errs, e.precond...), "; ")))
 		return
 	}
 	var want []byte
